@@ -38,6 +38,11 @@ using namespace unodb;
 #endif
 #define MAXOBJ 8
 extern "C" std::uint64_t verif_fixed_k(void) noexcept;
+#ifdef FAULT_FIXED
+#define FAULT_INDEX(hi) ((void)in_u8(), verif_fixed_k())    // fault position fixed by the generated entry wrapper <scenario>__f<N>: folds in seconds where the path-wise symbolic position takes minutes
+#else
+#define FAULT_INDEX(hi) in_range(0, hi)
+#endif
 struct ghost_obj { void* p; unsigned waiting; unsigned freed; };     // waiting: bit t set = thread t was registered at retire time and has not quiesced/paused since
 static ghost_obj objs[MAXOBJ]; static unsigned nobj;
 static unsigned early_free, unknown_free;
@@ -72,14 +77,23 @@ static void act(unsigned t, unsigned a) {
 #include <new>
 static unsigned count_now() { return qsbr_state::get_thread_count(qsbr::instance().get_state()); }
 // a deferred-deallocation request whose k-th allocation fails (k symbolic; decided path-wise)
-template <unsigned WARM> static void f_retire_n() {
+struct tstate { std::uint64_t seen, seen_q, nprev, ncur, frees; };
+static unsigned total_frees() { unsigned n = 0; for (unsigned i = 0; i < MAXOBJ; i++) if (i < nobj) n += objs[i].freed; return n; }
+static tstate tsnap(const qsbr_per_thread& th) {       // what a failed request must leave as it was: the thread's view of the epoch and both of its pending lists
+  return tstate{th.last_seen_epoch.epoch_val, th.last_seen_quiescent_state_epoch.epoch_val, th.previous_interval_dealloc_requests.size(), th.current_interval_dealloc_requests.size(), total_frees()};
+}
+static bool tsame(const tstate& a, const tstate& b) { return a.seen == b.seen && a.seen_q == b.seen_q && a.nprev == b.nprev && a.ncur == b.ncur && a.frees == b.frees; }
+// NEWEPOCH: the other threads complete an epoch change after the requester's last quiescent state, so the request is the first call in which it notices the new epoch
+template <unsigned WARM, unsigned NEWEPOCH = 0> static void f_retire_n() {
   for (unsigned t = 0; t < 3; t++) { T[t] = new qsbr_per_thread(); active[t] = true; }
   constexpr unsigned warm = WARM;          // requests already queued by the same thread (vector growth paths differ)
   for (unsigned i = 0; i < warm; i++) act(0, 1);
+  for (unsigned e = 0; e < NEWEPOCH; e++) { act(0, 0); for (unsigned i = 0; i < warm; i++) act(0, 1); act(1, 0); act(2, 0); }   // each round: requester quiesces first (and retires again), the others finish the epoch
   act(1, 0);
   void* p = detail::allocate_aligned(8);
   const std::uint64_t live0 = verif_live_allocs();
-  const std::uint64_t fail = in_range(0, 2);
+  const tstate t0 = tsnap(*T[0]);
+  const std::uint64_t fail = FAULT_INDEX(2);
   verif_fail_alloc_at(fail);
   bool threw = false, other = false;
   try { T[0]->on_next_epoch_deallocate(p); } catch (const std::bad_alloc&) { threw = true; } catch (...) { other = true; }
@@ -90,6 +104,7 @@ template <unsigned WARM> static void f_retire_n() {
   if (threw) {
     PROP(verif_live_allocs() == live0, "C08: a failed deferred-deallocation request neither leaks nor frees anything");
     PROP(count_now() == 3, "C08: a failed request leaves the registered-thread count unchanged");
+    PROP(tsame(t0, tsnap(*T[0])), "C08: a failed request leaves the requester's epoch view and both pending-request lists unchanged and executes no deferred deallocation");
     *static_cast<std::uint8_t*>(p) = 0x5A;                                   // the block is still the caller's: writable (pointer checks)
     T[0]->on_next_epoch_deallocate(p);                                       // retry without the fault
   }
@@ -103,11 +118,13 @@ template <unsigned WARM> static void f_retire_n() {
 HARNESS(f_retire_0) { f_retire_n<0>(); }
 HARNESS(f_retire_1) { f_retire_n<1>(); }
 HARNESS(f_retire_2) { f_retire_n<2>(); }
+HARNESS(f_retire_1_newepoch) { f_retire_n<1, 1>(); }
+HARNESS(f_retire_1_newepoch2) { f_retire_n<1, 2>(); }
 HARNESS(f_resume) {
   for (unsigned t = 0; t < 2; t++) { T[t] = new qsbr_per_thread(); active[t] = true; }
   act(0, 1); act(0, 2);                                                      // thread 0 retires something and pauses
   const std::uint64_t live0 = verif_live_allocs();
-  const std::uint64_t fail = in_range(0, 3);
+  const std::uint64_t fail = FAULT_INDEX(3);
   verif_fail_alloc_at(fail);
   bool threw = false, other = false;
   try { T[0]->qsbr_resume(); } catch (const std::bad_alloc&) { threw = true; } catch (...) { other = true; }
@@ -132,7 +149,7 @@ HARNESS(f_resume) {
 HARNESS(f_thread_start) {
   T[0] = new qsbr_per_thread(); active[0] = true;
   const std::uint64_t live0 = verif_live_allocs();
-  const std::uint64_t fail = in_range(0, 4);
+  const std::uint64_t fail = FAULT_INDEX(4);
   verif_fail_alloc_at(fail);
   bool threw = false, other = false; qsbr_per_thread* nt = nullptr;
   try { nt = new qsbr_per_thread(); } catch (const std::bad_alloc&) { threw = true; } catch (...) { other = true; }
